@@ -29,7 +29,7 @@ SPEC = {
     "lean_modules": ["RsslVerif.Thm.C07", "RsslVerif.Lemmas.EnumRange", "RsslVerif.Thm.C02", "RsslVerif.Thm.C15"],
     "theorems": [T + n for n in [
         "sort_perm_invariant", "collectSort_perm_invariant", "sortBy_key_perm_invariant",
-        "lookup_perm_invariant", "fold_perm_invariant",
+        "lookup_perm_invariant", "fold_perm_invariant", "firstFailure_ok_perm_invariant", "firstFailure_perm_invariant",
         # tie: inventory of hash-ordered traversals, each with the fingerprint and the effects of its body
         "hash_sites_covered", "site_effects_reviewed", "classified_all_current",
         "scoped_declarations_unobserved", "no_other_nondeterminism",
